@@ -2,6 +2,7 @@
 # Licensed under the MIT License.
 from __future__ import annotations
 
+import contextlib
 from typing import Any, Optional, Sequence
 
 import numpy as np
@@ -484,6 +485,18 @@ class _Exporter:
 
         return ", ".join(f"{k}={v}" for k, v in attributes)
 
+    @contextlib.contextmanager
+    def _constants_scope(self, graph: GraphProto):
+        """ONNX scopes names to the subgraph: the constants inlined inside a subgraph are forgotten after it
+        (a sibling subgraph may bind the same name to something else) and its own inputs hide outer constants."""
+        saved = dict(self.constants)
+        for x in graph.input:
+            self.constants.pop(x.name, None)
+        try:
+            yield
+        finally:
+            self.constants = saved
+
     def _translate_if(self, node, opsets, indent=0):
         """Translates a node If into python."""
         sindent = _SINGLE_INDENT * indent
@@ -499,24 +512,26 @@ class _Exporter:
         else:
             else_branch, then_branch = atts[1].g, atts[0].g
 
-        code.append(
-            self._translate_graph_body(
-                then_branch,
-                opsets,
-                indent=indent + 1,
+        with self._constants_scope(then_branch):
+            code.append(
+                self._translate_graph_body(
+                    then_branch,
+                    opsets,
+                    indent=indent + 1,
+                )
             )
-        )
-        code.extend(self._emit_assign(node.output, then_branch.output, indent + 1))
+            code.extend(self._emit_assign(node.output, then_branch.output, indent + 1))
 
         code.append(f"{sindent}else:")
-        code.append(
-            self._translate_graph_body(
-                else_branch,
-                opsets,
-                indent=indent + 1,
+        with self._constants_scope(else_branch):
+            code.append(
+                self._translate_graph_body(
+                    else_branch,
+                    opsets,
+                    indent=indent + 1,
+                )
             )
-        )
-        code.extend(self._emit_assign(node.output, else_branch.output, indent + 1))
+            code.extend(self._emit_assign(node.output, else_branch.output, indent + 1))
         return "\n".join(code)
 
     def _emit_assign(self, lhs, rhs, indent):
@@ -614,16 +629,17 @@ class _Exporter:
                 "there is no stop condition."
             )
 
-        rows.append(
-            self._translate_graph_body(
-                body,
-                opsets,
-                indent=indent + 1,
+        with self._constants_scope(body):
+            rows.append(
+                self._translate_graph_body(
+                    body,
+                    opsets,
+                    indent=indent + 1,
+                )
             )
-        )
-        if use_loop_cond:
-            rows.extend(self._emit_assign(cond_in, cond_out, indent + 1))
-        rows.extend(self._emit_assign(formal_ins, formal_outs, indent + 1))
+            if use_loop_cond:
+                rows.extend(self._emit_assign(cond_in, cond_out, indent + 1))
+            rows.extend(self._emit_assign(formal_ins, formal_outs, indent + 1))
         rows.extend(self._emit_assign(actual_outs, formal_ins, indent))
 
         # TODO: This doesn't handle scan-outputs yet.
@@ -783,6 +799,7 @@ class _Exporter:
         for imported in funproto.opset_import:
             opsets[imported.domain] = imported.version
         self._attr_renaming = {}
+        self.constants = {}  # the constants inlined in another function are not visible here
         used_proto_names = _names_used_in_function(funproto)
         renamed_names_used = [self._translate_onnx_var(x) for x in used_proto_names]
         self._names_used = set(renamed_names_used)
@@ -830,6 +847,7 @@ class _Exporter:
         # body) so that rename=True numbers the variables in their order of appearance in the body;
         # the signature then uses the same renaming as the body.
         self._name_remappings.append({})
+        self.constants = {}  # the constants inlined in the model's functions are not visible in its graph
         body = self._translate_graph_body(graph, opsets, indent=indent_level)
         return_values = ", ".join(self._translate_onnx_var_ref(x.name) for x in graph.output)
         self._name_remappings.pop()
